@@ -66,10 +66,11 @@ def parseAttrs : (fuel : Nat) → List String → Option (List Attr × List Stri
       | [] => none
     | _ => none
 
-def presentation (tagw : Int) (minw : Nat) : Presentation :=
-  { reg := Bridge.genRegistry, tagWidth := tagw, minWidth := minw, colors := Gen.mLevelColors }
+def presentation (reg : Registry) (tagw : Int) (minw : Nat) : Presentation :=
+  { reg := reg, tagWidth := tagw, minWidth := minw, colors := reg.colors }
 
-def step (toks : List String) : String :=
+/-- `reg` is the level registry as the C17 lines of the same stream have left it -/
+def step (reg : Registry) (toks : List String) : String :=
   match toks with
   | f :: lvl :: ts :: name :: msg :: caller :: tagw :: minw :: attrs =>
     let fmt? := if f == "j" then some Fmt.json else if f == "l" then some Fmt.logfmt else if f == "c" then some Fmt.color else none
@@ -80,7 +81,7 @@ def step (toks : List String) : String :=
         | _ => none
     match fmt?, lvl.toInt?, ofHex ts, ofHex name, ofHex msg, caller?, tagw.toInt?, minw.toNat?, parseAttrs (attrs.length + 2) attrs with
     | some fmt, some lvl, some ts, some name, some msg, some caller, some tagw, some minw, some (as, []) =>
-      match encodeRecord fmt isPrintTable (presentation tagw minw) 32
+      match encodeRecord fmt isPrintTable (presentation reg tagw minw) 32
               { lvl := lvl, ts := ts, name := name, msg := msg, attrs := as, caller := caller } with
       | some out => toHex out
       | none => "out-of-domain"
